@@ -28,8 +28,8 @@ PROP = dict(
         "no other process touches the repository during the transaction",
         "table files are CSV files with fewer than 4096 bytes (one write call for the body, one for the final line break)",
     ],
-    level_text="Proof: Coq theorems (Properties/C10.v) over ALL sets of created/updated/idle tables, ALL contents and ALL crash points k about the op-list model of Transaction.Commit/Handler.commit (Model/Commit.v, parameter rename_over): crash_old_or_new is REFUTED for the list the tree issues today (remove, then rename: C10_crash_old_or_new_refuted, witness = kill between unlinkat and renameat) with the strongest true statement C10_crash_old_or_new_partial (old, new, or missing with the complete new contents in the temp file), and PROVED for the repaired list that renames over the file (C10_crash_old_or_new_repaired); likewise recoverable (refuted/partial/repaired), plus unwritten tables byte-identical at every crash point, files of tables outside the transaction untouched, and the complete commit. The model is tied to the code on every run by strace: the trace of the real binary must equal commit_ops (which variant is detected from the trace), and for SIGKILL before every system call the directory found must equal run s0 (firstn k ops) and is judged by the decidable checker old_or_new (proved equivalent to the Prop).",
-    level_note="Trusted: Coq kernel + vm_compute; strace and its SIGKILL injection; the Go harness (trace parser, snapshots); POSIX semantics of the six calls incl. atomic rename. New table contents come from the undisturbed run. Not covered: power loss / fsync ordering, non-CSV formats, files over 4 KiB (multi-write bodies), concurrent processes (C09).",
+    level_text="Proof: Coq theorems (Properties/C10.v) over ALL sets of created/updated/idle tables, ALL contents and ALL crash points k about the op-list model of Transaction.Commit/Handler.commit (Model/Commit.v, parameter rename_over): crash_old_or_new is REFUTED for the list the tree issues today (remove, then rename: C10_crash_old_or_new_refuted, witness = kill between unlinkat and renameat) with the strongest true statement C10_crash_old_or_new_partial (old, new, or missing with the complete new contents in the temp file), and PROVED for the repaired list that renames over the file (C10_crash_old_or_new_repaired); likewise recoverable (refuted/partial/repaired), plus unwritten tables byte-identical at every crash point, files of tables outside the transaction untouched, and the complete commit. The model is tied to the code on every run by strace: the trace of the real binary must equal commit_ops (which variant is detected from the trace), and for SIGKILL before every system call the directory found must equal run s0 (firstn k ops) and is judged by the decidable checker old_or_new (proved equivalent to the Prop). Outside the op-list model (which knows small CSV tables): large tables in CSV/TSV/LTSV/JSON Lines/JSON/fixed-length format are committed while SIGTERM/SIGINT/SIGQUIT (cancellation noticed by the encoders) or SIGKILL is injected at write/ftruncate/renameat/close calls; each table must be byte-identical to its complete old or complete new contents and readable by a fresh csvq with the right record count (model-free direct check).",
+    level_note="Trusted: Coq kernel + vm_compute; strace and its SIGKILL injection; the Go harness (trace parser, snapshots); POSIX semantics of the six calls incl. atomic rename. New table contents come from the undisturbed run. The theorems' op list describes CSV tables under 4 KiB; other formats and multi-write tables are covered by the model-free byte comparison only. Not covered: power loss / fsync ordering, concurrent processes (C09).",
     technique="Coq theorems on an executable op-list model of COMMIT (prefix = crash) + strace correspondence with the real binary incl. SIGKILL injection before every system call",
     design_ref="DESIGN.md section 5 (C10)",
 )
